@@ -669,13 +669,15 @@ impl Ctx {
         let batches = (threads * 4).min(n.max(1));
         let per = n / batches;
         let rem = n % batches;
+        // shrinking budget: about 60 s of single-threaded case evaluations per distinct failure signature (set after phase 1 from the measured cost)
+        let shrink_iters = std::sync::atomic::AtomicU32::new(1500);
         let config = |b: u64, shrink: bool| {
             let mut cfg = Config::default();
             cfg.cases = (per + if b < rem { 1 } else { 0 }) as u32;
             cfg.failure_persistence = None;
             cfg.rng_algorithm = RngAlgorithm::ChaCha;
             cfg.rng_seed = RngSeed::Fixed(derive_seed(self.seed, self.prop, name, b));
-            cfg.max_shrink_iters = if shrink { 1500 } else { 0 };
+            cfg.max_shrink_iters = if shrink { shrink_iters.load(Ordering::Relaxed) } else { 0 };
             cfg.max_shrink_time = 0;
             cfg.verbose = 0;
             cfg.source_file = None;
@@ -709,6 +711,11 @@ impl Ctx {
                 first.into_inner().unwrap().map(|(c, fl)| (b, c, fl))
             })
             .collect();
+        {
+            let evals = sub.evaluations.load(Ordering::Relaxed).max(1) as f64;
+            let per_case = t0.elapsed().as_secs_f64() * threads as f64 / evals;
+            shrink_iters.store(((60.0 / per_case.max(1e-6)) as u64).clamp(40, 1500) as u32, Ordering::Relaxed);
+        }
         // phase 2: for every distinct failure signature, shrink in the lowest-numbered batch that showed it
         let mut by_key: BTreeMap<String, (u64, C, Fail)> = BTreeMap::new();
         for (b, c, fl) in found.into_iter().flatten() {
